@@ -15,6 +15,9 @@ if '--checks-at' in args:        # evaluate with another checkout of /verif (e.g
     i = args.index('--checks-at'); CHK = args[i + 1]; del args[i:i + 2]
 if '--key' in args:              # meta.json key to record under (default caught_by)
     i = args.index('--key'); KEY = args[i + 1]; del args[i:i + 2]
+DRY = False
+if '--props' in args:            # run only these checks (comma separated) and do not record anything
+    i = args.index('--props'); props = args[i + 1].split(','); del args[i:i + 2]; DRY = True
 only = args
 rows = []
 for d in sorted(os.listdir(V + '/seeded')):
@@ -41,6 +44,9 @@ for d in sorted(os.listdir(V + '/seeded')):
         elif pr.returncode == 2:
             broken.append(p)
     subprocess.run(['git', '-C', '/repo', 'reset', '-q', '--hard', 'HEAD'])
+    if DRY:
+        rows.append((d, 'caught' if caught else 'MISSED', caught + (['exit2:' + ','.join(broken)] if broken else [])))
+        continue
     meta = json.load(open(sd + '/meta.json'))
     meta[KEY] = caught
     meta['analysis_error_in' if KEY == 'caught_by' else KEY + '_exit2'] = broken
